@@ -76,6 +76,7 @@ fn main() {
         "clirt" => cli::suite_clirt(&out, seed, thorough, &mut st),
         "cliclone" => cli::suite_cliclone(&out, seed, thorough, &mut st),
         "clirefuse" => cli::suite_clirefuse(&out, seed, thorough, &mut st),
+        "clicorrupt" => cli::suite_clicorrupt(&out, seed, thorough, &mut st),
         "clitrace" => cli::suite_clitrace(&out, seed, thorough, &mut st),
         "clifault" => cli::suite_clifault(&out, seed, thorough, &mut st),
         "ioread" => http::suite_ioread(&out, seed, thorough, &mut st),
